@@ -6,6 +6,7 @@ package main
 
 import (
 	"fmt"
+	"google.golang.org/protobuf/proto"
 	"reflect"
 	"sort"
 	"time"
@@ -425,9 +426,45 @@ func oracleC04(m *gtfsrt.FeedMessage, r *gtfs.Realtime, tz *time.Location) strin
 }
 
 // C07 (all messages): Trips unique and sorted by identifier, Vehicles unique by non-empty identifier
+// specTripLess: the identifier order of the property, written out here (not the library's Less): lexicographic on
+// (id, route, direction, start time with "absent" first, start date with "absent" first, schedule relationship)
+func specTripLess(a, b gtfs.TripID) bool {
+	opt := func(has bool, v int64) [2]int64 {
+		if !has {
+			return [2]int64{0, 0}
+		}
+		return [2]int64{1, v}
+	}
+	ka := []any{a.ID, a.RouteID, int64(a.DirectionID), opt(a.HasStartTime, int64(a.StartTime)), opt(a.HasStartDate, 0), int64(a.ScheduleRelationship)}
+	kb := []any{b.ID, b.RouteID, int64(b.DirectionID), opt(b.HasStartTime, int64(b.StartTime)), opt(b.HasStartDate, 0), int64(b.ScheduleRelationship)}
+	for i := range ka {
+		switch x := ka[i].(type) {
+		case string:
+			if y := kb[i].(string); x != y {
+				return x < y
+			}
+		case int64:
+			if y := kb[i].(int64); x != y {
+				return x < y
+			}
+		case [2]int64:
+			y := kb[i].([2]int64)
+			if x[0] != y[0] {
+				return x[0] < y[0]
+			}
+			if i == 3 && x[1] != y[1] {
+				return x[1] < y[1]
+			}
+			if i == 4 && x[0] == 1 && !a.StartDate.Equal(b.StartDate) { // dates are instants (any year, before or after the epoch)
+				return a.StartDate.Before(b.StartDate)
+			}
+		}
+	}
+	return false
+}
 func oracleC07Shape(r *gtfs.Realtime) string {
 	for i := 1; i < len(r.Trips); i++ {
-		if !r.Trips[i-1].ID.Less(r.Trips[i].ID) {
+		if !specTripLess(r.Trips[i-1].ID, r.Trips[i].ID) {
 			return fmt.Sprintf("Trips not strictly sorted by identifier at %d", i)
 		}
 	}
@@ -570,6 +607,105 @@ func permuteEntities(g *gen, m *gtfsrt.FeedMessage, mode int) *gtfsrt.FeedMessag
 
 func describeMsg(m *gtfsrt.FeedMessage) string { return wMessage(m) }
 
+// nyctLinked: C04 under the NYCT trips extension. A plan of assigned NYCT trips with pairwise distinct trip ids and pairwise
+// distinct train ids, each mentioned by a trip update, a vehicle position or both; the entities' own vehicle descriptors
+// (absent, another id, label only, or already the train id plus a label / plate) are replaced by the train id, so the
+// associations form a bijection trip <-> train whatever those descriptors say.
+type nyctLink struct{ tripID, train string }
+
+func (g *gen) nyctLinked() (*gtfsrt.FeedMessage, []nyctLink) {
+	ts := uint64(1700000000 + g.r.Intn(100000))
+	m := &gtfsrt.FeedMessage{Header: header(ts)}
+	var plan []nyctLink
+	var es []*gtfsrt.FeedEntity
+	for i, n := 0, 1+g.r.Intn(4); i < n; i++ {
+		l := nyctLink{tripID: fmt.Sprintf("%06d_L..N", 60000+100*i), train: fmt.Sprintf("0L %04d", 1100+i)}
+		plan = append(plan, l)
+		mkTD := func() *gtfsrt.TripDescriptor {
+			td := &gtfsrt.TripDescriptor{TripId: ptr(l.tripID), RouteId: ptr("L"), StartDate: ptr("20231114")}
+			proto.SetExtension(td, gtfsrt.E_NyctTripDescriptor, &gtfsrt.NyctTripDescriptor{TrainId: ptr(l.train), IsAssigned: ptr(true), Direction: gtfsrt.NyctTripDescriptor_NORTH.Enum()})
+			return td
+		}
+		own := func() *gtfsrt.VehicleDescriptor {
+			switch g.r.Intn(6) {
+			case 0:
+				return &gtfsrt.VehicleDescriptor{Id: ptr("other-" + l.train)}
+			case 1:
+				return &gtfsrt.VehicleDescriptor{Label: ptr("label only")}
+			case 2:
+				return &gtfsrt.VehicleDescriptor{Id: ptr(l.train), Label: ptr("car 7")}
+			case 3:
+				return &gtfsrt.VehicleDescriptor{Id: ptr(l.train), LicensePlate: ptr("PLATE")}
+			case 4:
+				return &gtfsrt.VehicleDescriptor{Id: ptr(l.train)}
+			default:
+				return nil
+			}
+		}
+		kind := g.r.Intn(3) // 0 trip update only, 1 vehicle position only, 2 both
+		if kind != 1 {
+			tu := &gtfsrt.TripUpdate{Trip: mkTD(), Vehicle: own()}
+			for k := g.r.Intn(3); k > 0; k-- {
+				tu.StopTimeUpdate = append(tu.StopTimeUpdate, g.rtStu(int64(ts), true))
+			}
+			es = append(es, &gtfsrt.FeedEntity{Id: ptr(fmt.Sprintf("tu%d", i)), TripUpdate: tu})
+		}
+		if kind != 0 {
+			vp := g.vehiclePosition(ts)
+			vp.Trip, vp.Vehicle = mkTD(), own()
+			es = append(es, &gtfsrt.FeedEntity{Id: ptr(fmt.Sprintf("vp%d", i)), Vehicle: vp})
+		}
+	}
+	g.r.Shuffle(len(es), func(i, j int) { es[i], es[j] = es[j], es[i] })
+	m.Entity = es
+	return m, plan
+}
+func oracleC04Nyct(plan []nyctLink, r *gtfs.Realtime) string {
+	if len(r.Trips) != len(plan) {
+		return fmt.Sprintf("%d trips for %d planned NYCT trips", len(r.Trips), len(plan))
+	}
+	if len(r.Vehicles) != len(plan) {
+		return fmt.Sprintf("%d vehicles for %d trains (one vehicle per train id)", len(r.Vehicles), len(plan))
+	}
+	for _, l := range plan {
+		var t *gtfs.Trip
+		for i := range r.Trips {
+			if r.Trips[i].ID.ID == l.tripID {
+				t = &r.Trips[i]
+			}
+		}
+		if t == nil {
+			return "trip " + l.tripID + " missing"
+		}
+		if t.Vehicle == nil || t.Vehicle.ID == nil || *t.Vehicle.ID != (gtfs.VehicleID{ID: l.train}) {
+			return fmt.Sprintf("trip %s is not linked to the vehicle identified by its train id %q alone", l.tripID, l.train)
+		}
+		if t.Vehicle.Trip == nil || t.Vehicle.Trip.ID.ID != l.tripID || t.Vehicle.Trip.Vehicle != t.Vehicle {
+			return fmt.Sprintf("trip %s: Trip.Vehicle.Trip does not lead back to the trip", l.tripID)
+		}
+		if cTrip(t.Vehicle.Trip) != cTrip(t) {
+			return fmt.Sprintf("trip %s: the trip reached through its vehicle differs from the Trips entry", l.tripID)
+		}
+		n := 0
+		for i := range r.Vehicles {
+			v := &r.Vehicles[i]
+			if v.ID != nil && v.ID.ID == l.train {
+				n++
+				if v.Trip == nil || v.Trip.ID.ID != l.tripID || v.Trip.Vehicle == nil || v.Trip.Vehicle.ID == nil || *v.Trip.Vehicle.ID != *v.ID {
+					return fmt.Sprintf("vehicle %+v: Vehicle.Trip.Vehicle does not lead back to the vehicle", *v.ID)
+				}
+				if cVehicle(v) != cVehicle(t.Vehicle) {
+					return fmt.Sprintf("vehicle %+v: the Vehicles entry differs from the vehicle reached through its trip", *v.ID)
+				}
+			}
+		}
+		if n != 1 {
+			return fmt.Sprintf("%d Vehicles entries for train %q", n, l.train)
+		}
+	}
+	return ""
+}
+
 func engineRTCore(which string) engineFn {
 	return func(ctx *engineCtx) {
 		g := &gen{r: ctx.rng}
@@ -579,6 +715,7 @@ func engineRTCore(which string) engineFn {
 		}
 		ctx.rule = "conflict-free GTFS-realtime messages built from an abstract plan (0-5 trips, 0-4 vehicles, associations as a partial bijection expressed by trip update only / vehicle position only / both, " +
 			"vehicles with id, label only or no descriptor, 0-3 alerts; every optional field independently present; boundary numerics; valid and near-miss HH:MM:SS and YYYYMMDD) x 8 zone options, " +
+			"for C04 also NYCT plans (1-4 assigned trips with distinct train ids, mentioned by trip update / vehicle position / both, own vehicle descriptors absent, foreign, label-only or train id plus label) under the NYCT trips extension; " +
 			"plus a 'wild' stream (repeated/conflicting mentions, empty descriptors, multi-payload entities) for the all-messages clauses and the model; " +
 			"non-trivial = at least two entities and one association or alert; distinct = distinct wire bytes"
 		var cases []string
@@ -629,6 +766,18 @@ func engineRTCore(which string) engineFn {
 				case "C04":
 					if msg := oracleC04(dm, r, tz); msg != "" {
 						ctx.violate("c04-links", msg, replay)
+					}
+					// the same under the NYCT trips extension, where the vehicle of an assigned trip is derived from its train id
+					if i%3 == 0 {
+						nm, plan := g.nyctLinked()
+						ncfg := g.extCfg(1)
+						ncfg.filterStale = false
+						if nr, nerr, ncr := parseRT(marshal(nm), tz, ncfg); nerr == nil && !ncr.panicked && !ncr.hung {
+							ctx.evaluations++
+							if msg := oracleC04Nyct(plan, nr); msg != "" {
+								ctx.violate("c04-links-nyct", msg, map[string]any{"message": describeMsg(decodeMsg(marshal(nm))), "zone": cTz(tz), "config": ncfg.coq()})
+							}
+						}
 					}
 					// whatever the entity order
 					pm := permuteEntities(g, dm, g.r.Intn(2))
